@@ -14,6 +14,7 @@ import (
 	"golang.org/x/text/unicode/norm"
 	"pgregory.net/rapid"
 
+	"verifharness/fc"
 	"verifharness/h"
 	"verifharness/mgen"
 	ref "verifharness/ref/bip39"
@@ -54,6 +55,7 @@ var pieces = []piece{
 }
 
 func TestMain(m *testing.M) {
+	h.FirstCallsChild(fc.Bip39()) // never returns in a first-call child process
 	if err := ref.SelfCheck(); err != nil {
 		fmt.Println("VERIF-INFRA reference self-check failed:", err)
 		panic(err)
@@ -720,3 +722,6 @@ func validUTF8(s string) bool { return strings.ToValidUTF8(s, "\x00") == s }
 func FuzzGenParse(f *testing.F) {
 	h.FuzzSub(f, h.Sub[parseCase]{Prop: "C09", Name: "parse-renderings", Gen: genParse, Check: checkParse})
 }
+
+// which public entry point is called first in a process (and by how many goroutines at once)
+func TestFirstCalls(t *testing.T) { h.FirstCallsSub(t, "C09", fc.Bip39(), 6) }
